@@ -6,7 +6,9 @@ Space (every member is visited, nothing sampled): a history is
     order, all among 1..i-1 (several roots, merges, both parent orders by construction);
   * a head for every branch of a fixed branch-name tuple (any commit; heads may coincide or lie inside
     another branch), kept only when every commit is reachable from some head;
-  * any subset of commits carrying a build tag, any subset whose message contains the search text.
+  * any subset of commits carrying a build tag, any subset whose message contains the search text;
+  * commit times: increasing with the history by default; in the groups marked so also every order of the commit
+    times relative to the history (ancestors later than descendants, all equal) - always inside the 30-day window.
 The real ``ReposCollection.make_report`` runs on a deterministic duck-typed repository
 (models/ghist_model.py); ``RGraph.branches[*].rbuilds[*]`` and the printed report are compared with a
 reachability reference written from the property statement.
@@ -21,8 +23,8 @@ TITLE = "History report attributes every matching commit to the right build per 
 TECHNIQUE = "bounded exhaustive enumeration of commit histories against a reachability reference model"
 DESIGN_REF = "§2 C06"
 LEVEL_TEXT = ("Every history with up to 4 commits under 1-3 branch heads and up to 3 commits under 4 heads (thorough: "
-              "4 commits under 4 heads, 5 commits under 1-2 heads, 5 commits under 3 heads with at most 2 tagged and 2 "
-              "matching commits), all tag and match placements, is run through the real report builder and printer "
+              "4 commits under 4 heads, 5 commits under 1-2 heads, 5 commits under 3 heads with at most 2 tagged and 1 "
+              "matching commit), all tag and match placements, is run through the real report builder and printer "
               "and compared with an independent reachability model of the statement.")
 LEVEL_NOTE = ("Small-scope: histories with more commits, octopus merges, several tags on one commit, other tag "
               "formats / VERSION files, the obsolete-branch cut-off (dates are kept inside the 30-day window as the "
@@ -32,12 +34,14 @@ RULE = ("case = one history (DAG, heads, tagged set, matching set); the report d
         "compared with the reference. Non-trivial: some matching commit concerns at least two branches (reachable "
         "from two heads, or reachable from a lower-sorted head and therefore owed a 'not merged' line by a higher one).")
 ASSUMPTIONS = [
-    "commit times inside the 30-day window (property quantifier); the obsolete-branch cut-off is not exercised",
+    "commit times inside the 30-day window (property quantifier), in any order relative to the history where the "
+    "group says so; the obsolete-branch cut-off is not exercised",
     "at most two parents per commit, one standard build tag per commit, build numbers from tags only",
     "one remote ('origin'); branch names release/<a>.<b> and master",
     "headings that list no commit are not compared (implementation-only per DESIGN §1.3)",
 ]
-REQUIRED_FEATURES = ["printed-report-parsed", "merge", "several-roots", "heads-coincide", "head-inside-other-branch",
+REQUIRED_FEATURES = ["printed-report-parsed", "commit-times-against-history", "commit-times-equal",
+                     "ancestor-of-inside-head-committed-later", "merge", "several-roots", "heads-coincide", "head-inside-other-branch",
                      "head-inside-other-branch+matching-reachable", "not-merged-expected", "tagged-head",
                      "not-built-head", "parallel-tagged-sub-branches", "tag-on-merge-of-built-sub-branches",
                      "lower-branch-commit-merged-into-build", "numeric-aware-order-matters", "master-present"]
@@ -47,34 +51,54 @@ B2 = ("release/2.0", "release/10.0")          # plain string order would put 10.
 B3 = ("release/2.0", "release/10.0", "master")
 B4 = ("release/1.0", "release/2.0", "release/10.0", "master")
 
-# group = (n, branch names, number of shards, (max matching, max tagged) or None, printed-report mode)
+# group = (n, branch names, number of shards, (max matching, max tagged) or None, printed-report mode, commit times)
 #   printed-report mode: "all" = every history is printed and parsed back; "distinct" = once per distinct
 #   report structure per shard (the formatter receives nothing but the report data)
+#   commit times: "inc" = increasing with the commit id (topological); "dec" = that and the reverse (every ancestor
+#   later than its descendants); "dec+eq" = those and all-equal; "all" = every permutation of the commit times over the commits and all-equal
 _GROUPS = {
-    "quick": [(1, B2, 1, None, "all"), (2, B2, 1, None, "all"), (1, B3, 1, None, "all"), (2, B3, 1, None, "all"),
-              (3, B1, 1, None, "all"), (3, B2, 1, None, "all"), (3, B3, 2, None, "all"), (3, B4, 6, None, "all"),
-              (4, B1, 2, None, "all"), (4, B2, 16, None, "all"), (4, B3, 96, None, "distinct")],
-    "thorough": [(1, B2, 1, None, "all"), (2, B2, 1, None, "all"), (1, B4, 1, None, "all"), (2, B4, 1, None, "all"),
-                 (3, B1, 1, None, "all"), (3, B2, 1, None, "all"), (3, B3, 1, None, "all"), (3, B4, 2, None, "all"),
-                 (4, B1, 1, None, "all"), (4, B2, 4, None, "all"), (4, B3, 24, None, "all"),
-                 (4, B4, 96, None, "distinct"), (5, B1, 8, None, "all"), (5, B2, 128, None, "distinct"),
-                 (5, B3, 320, (2, 2), "distinct")],
+    "quick": [(1, B2, 1, None, "all", "all"), (2, B2, 1, None, "all", "all"), (1, B3, 1, None, "all", "all"),
+              (2, B3, 1, None, "all", "all"), (3, B1, 1, None, "all", "all"), (3, B2, 2, None, "all", "all"),
+              (3, B3, 12, None, "all", "all"), (3, B4, 12, None, "all", "dec"),
+              (4, B1, 2, None, "all", "dec"), (4, B2, 32, None, "all", "dec"), (4, B3, 96, None, "distinct", "inc")],
+    "thorough": [(1, B2, 1, None, "all", "all"), (2, B2, 1, None, "all", "all"), (1, B4, 1, None, "all", "all"),
+                 (2, B4, 1, None, "all", "all"), (3, B1, 1, None, "all", "all"), (3, B2, 2, None, "all", "all"),
+                 (3, B3, 8, None, "all", "all"), (3, B4, 24, None, "all", "all"),
+                 (4, B1, 4, None, "all", "all"), (4, B2, 16, None, "all", "dec+eq"), (4, B3, 48, None, "all", "dec"),
+                 (4, B4, 96, None, "distinct", "inc"), (5, B1, 16, None, "all", "dec"), (5, B2, 128, None, "distinct", "inc"),
+                 (5, B3, 160, (1, 2), "distinct", "inc")],
 }
+
+
+def _date_schemes(n, mode):
+    """None = default (increasing with the id); otherwise the rank of each commit's time."""
+    if mode == "inc":
+        return [None]
+    if mode == "dec":
+        return [None, list(range(n, 0, -1))]
+    if mode == "dec+eq":
+        return [None, list(range(n, 0, -1)), [1] * n]
+    out = [None]
+    for perm in itertools.permutations(range(1, n + 1)):
+        if list(perm) != list(range(1, n + 1)):
+            out.append(list(perm))
+    out.append([1] * n)
+    return out
 
 
 def bounds(tier):
     return {"groups": [{"commits": n, "branches": list(names), "shards": k,
                         "matching_commits_at_most": lim[0] if lim is not None else n,
                         "tagged_commits_at_most": lim[1] if lim is not None else n,
-                        "printed_report_compared": pr}
-                       for n, names, k, lim, pr in _GROUPS[tier]],
+                        "printed_report_compared": pr, "commit_time_orders": len(_date_schemes(n, dm))}
+                       for n, names, k, lim, pr, dm in _GROUPS[tier]],
             "parents_per_commit": "0..2, both orders", "tags": "any subset, one standard tag per commit",
             "matching": "any subset (see matching_commits_at_most)", "heads": "every tuple covering all commits"}
 
 
 def shards(tier):
     out = []
-    for gi, (n, names, k, lim, pr) in enumerate(_GROUPS[tier]):
+    for gi, (n, names, k, lim, pr, _dm) in enumerate(_GROUPS[tier]):
         for j in range(k):
             out.append((tier, gi, j))
     return out
@@ -147,7 +171,8 @@ def _outcome(observed, problems):
 
 def run_shard(shard, tier, seed, acc):
     _tier, gi, j = shard
-    n, names, k, lim, printed_mode = _GROUPS[tier][gi]
+    n, names, k, lim, printed_mode, date_mode = _GROUPS[tier][gi]
+    schemes = _date_schemes(n, date_mode)
     _PRINT_SEEN.clear()             # per shard, so that what is printed does not depend on worker scheduling
     dags = _dags(n)
     full = (1 << (n + 1)) - 2
@@ -176,21 +201,41 @@ def run_shard(shard, tier, seed, acc):
                 return
             for tags in tag_sets:
                 for match in match_sets:
-                    case = {"parents": parents, "heads": heads, "tags": tags, "match": match}
-                    problems, exp, observed = check_history(case, acc, printed_mode)
-                    feats = gm.c06_features(parents, heads, tags, match, exp)
-                    nontriv = gm.c06_nontrivial(match, exp)
-                    acc.case(nontrivial=nontriv, features=tuple(feats) + extra,
-                             outcome=_outcome(observed, problems))
-                    if nontriv and len(tags) == 1 and len(match) == 2:
-                        acc.sample(case)
-                    if problems:
-                        _report(acc, case, problems)
-                        if any(p[0] == "hangs" for p in problems):
-                            acc.note_sum("hangs", 1)
-                            if acc.extra.get("sum_hangs", 0) >= 3:      # each hang costs the whole CPU limit
-                                acc.capped = True
-                                return
+                    base_feats = None
+                    for dates in schemes:
+                        case = {"parents": parents, "heads": heads, "tags": tags, "match": match}
+                        if dates is not None:
+                            case["dates"] = dates
+                        problems, exp, observed = check_history(case, acc, printed_mode)
+                        if base_feats is None:
+                            base_feats = (tuple(gm.c06_features(parents, heads, tags, match, exp)) + extra,
+                                          gm.c06_nontrivial(match, exp))
+                        feats, nontriv = base_feats
+                        if dates is not None:
+                            feats = feats + _date_features(parents, dates, match, exp)
+                        acc.case(nontrivial=nontriv, features=feats, outcome=_outcome(observed, problems))
+                        if nontriv and len(tags) == 1 and len(match) == 2:
+                            acc.sample(case)
+                        if problems:
+                            _report(acc, case, problems)
+                            if any(p[0] == "hangs" for p in problems):
+                                acc.note_sum("hangs", 1)
+                                if acc.extra.get("sum_hangs", 0) >= 3:      # each hang costs the whole CPU limit
+                                    acc.capped = True
+                                    return
+
+
+def _date_features(parents, dates, match, exp):
+    f = ()
+    if len(set(dates)) == 1:
+        f += ("commit-times-equal",)
+    if any(dates[p - 1] > dates[i - 1] for i, ps in enumerate(parents, start=1) for p in ps):
+        f += ("commit-times-against-history",)
+    for e in exp:
+        if e["head_inside_lower"] and any((e["reach"] >> m) & 1 and dates[m - 1] > dates[e["head"] - 1] for m in match):
+            f += ("ancestor-of-inside-head-committed-later",)
+            break
+    return f
 
 
 def replay(case, acc):
